@@ -30,7 +30,10 @@ E = ...
 LEN_FORMS = [[0], [2], [3], [0, E], [2, E], [3, E], [E, 0], [E, 2], [E, 5], [0, 2], [1, 1], [2, 5],
              [3, 1]]
 INT = {"min": [[-1], [0], [2]], "max": [[-1], [0], [2]]}
-FLOAT = {"min": [[-1.0], [0.5], [2.0]], "max": [[-1.0], [0.5], [2.0]], "precision": [[1], [3]]}
+# 0.54 / 0.46 / 1.2 / 1.3 lie on the wrong side of the base values 0.5 / 1.25 but coincide with them
+# once rounded at precision 1 (a refinement that compares "as the validator would" goes wrong there)
+FLOAT = {"min": [[-1.0], [0.5], [2.0], [0.54], [1.3]], "max": [[-1.0], [0.5], [2.0], [0.46], [1.2]],
+         "precision": [[1], [3]]}
 STR = {"len": LEN_FORMS, "alphabet": [["ab"], ["a"], [""]], "contains": [["a"], ["ab"], ["c"], [""]],
        "regex": [["a"], ["^ab$"], ["c+"], [""]]}
 LIST = {"len": LEN_FORMS}
